@@ -271,7 +271,8 @@ def convert_inv(execution, inv_rec):
             if x.get("e") != eid:
                 raise Unsupported("nested executor")
             cfg = {"script": scripts, "maxc": x["maxc"], "mins": x["mins"], "tolc": x["tolc"], "tolp": x["tolp"],
-                   "tfail": bool(execution.sc.get("faults") or execution.sc.get("faults_after_apply")), "pre": pre}
+                   "tfail": bool(execution.sc.get("faults") or execution.sc.get("faults_after_apply") or execution.sc.get("get_state_fault")),
+                   "pre": pre}
             started = True
             continue
         if not started:
